@@ -160,7 +160,12 @@ class UnaryDelete(Obligation):
 
 
 def obligations(ctx, cfg):
-    return [StreamingDelete(), UnaryDelete()]
+    # C12.c: the subscription side of the release - SubscriptionActor::delete fires the deletion one-shot and
+    # wakes every waiting consumer, with its topic alive or already gone (same obligation as C11.c)
+    from props.C11 import SubDelete
+    sd = SubDelete(ctx)
+    sd.id = 'C12.c-delete-signals'
+    return [StreamingDelete(), UnaryDelete(), sd]
 
 
 def native_replay(ob_id, v):
